@@ -67,26 +67,45 @@ theorem safe_parseTimestampFloat (P : Params) (ts : Str) : Safe (parseTimestampF
   intro f _
   exact safe_ite (safe_throw_bind _) (safe_pure _)
 
-/-- the `aaaa.bbbb` form: the IndexError of `parts[1]` can only be reached when `int(parts[0])` succeeded on a text
-without a dot — i.e. when `int(timestamp)` succeeds -/
+theorem safe_fracStrictChecks (P : Params) (sec : Int) (p0 p1 : Str) : Safe (fracStrictChecks P sec p0 p1) := by
+  unfold fracStrictChecks
+  split
+  · cases h : P.intE p1 with
+    | error e => intro e' he'; cases he'; exact safe_intE P p1 e h
+    | ok b =>
+      dsimp only
+      split
+      · exact safe_valueError
+      · exact safe_ok _
+  · exact safe_ok _
+
+/-- the `aaaa.bbbb` form: the IndexError of `parts[1]` (first touched by `int(parts[1])` since 64745db) can only be
+reached when `int(parts[0])` succeeded on a text without a dot — i.e. when `int(timestamp)` succeeds -/
 theorem parseTimestampFrac_err (P : Params) (ts : Str) (hint : P.pyInt ts = none) : Safe (parseTimestampFrac P ts) := by
   unfold parseTimestampFrac
-  apply safe_bind (safe_intE P _)
-  intro a ha
-  cases hp : (splitFirst '.' ts).2 with
-  | none =>
-    -- no dot: parts[0] is the whole text, on which int() has just failed
-    exfalso
-    have h1 : (splitFirst '.' ts).1 = ts := splitFirst_none '.' ts _ (by rw [← hp])
-    rw [h1] at ha
-    unfold Params.intE at ha
-    rw [hint] at ha
-    cases ha
-  | some p1 =>
+  dsimp only
+  cases ha : P.intE (splitFirst '.' ts).1 with
+  | error e => intro e' he'; cases he'; exact safe_intE P _ e ha
+  | ok a =>
     dsimp only
-    apply safe_bind (safe_intE P _)
-    intro b _
-    exact safe_mkTimestamp a b
+    cases hp : (splitFirst '.' ts).2 with
+    | none =>
+      -- no dot: parts[0] is the whole text, on which int() has just failed
+      exfalso
+      have h1 : (splitFirst '.' ts).1 = ts := splitFirst_none '.' ts _ (by rw [← hp])
+      rw [h1] at ha
+      unfold Params.intE at ha
+      rw [hint] at ha
+      cases ha
+    | some p1 =>
+      dsimp only
+      cases hc : fracStrictChecks P a (splitFirst '.' ts).1 p1 with
+      | error e => intro e' he'; cases he'; exact safe_fracStrictChecks P _ _ _ e hc
+      | ok u =>
+        dsimp only
+        cases hb : P.intE (ljust 9 '0' (p1.take 9)) with
+        | error e => intro e' he'; cases he'; exact safe_intE P _ e hb
+        | ok b => exact safe_mkTimestamp a b
 
 /-- **`_parse_timestamp` raises nothing but ValueError** — for every text and every `int()` / `float()` -/
 theorem parseTimestamp_safe (P : Params) (ts : Str) : Safe (parseTimestamp P ts) := by
